@@ -115,6 +115,30 @@ def run(repo, res):
                 if isinstance(st, ast.For) and unparse(st.iter).startswith('node.') and '[' not in unparse(st.iter):
                     descends.add(unparse(st.iter)[5:])
             need = [f for f in kids if G.SORT_OF.get(kind) == 'expr' or kind in ('Import', 'ImportFrom')]
+            if G.SORT_OF.get(kind) == 'stmt' and kind not in ('Import', 'ImportFrom'):
+                # a statement handled by a method of its own: every expression child must still be searched - somewhere in the method
+                # (a visit under a condition counts: the other branch is the one that found the mark), local aliases followed
+                alias = {}
+                for st in ast.walk(m):
+                    if isinstance(st, ast.Assign) and len(st.targets) == 1 and isinstance(st.targets[0], ast.Name) \
+                            and unparse(st.value).startswith('node.'):
+                        alias[st.targets[0].id] = unparse(st.value)[5:]
+                for c in ast.walk(m):
+                    if isinstance(c, ast.Call) and unparse(c.func) in ('self.visit', 'self.generic_visit') and c.args:
+                        a = unparse(c.args[0])
+                        if a == 'node':
+                            descends.update(kids)
+                        elif a.startswith('node.'):
+                            descends.add(a[5:].split('[')[0].split('.')[0])
+                        elif a in alias:
+                            descends.add(alias[a].split('[')[0].split('.')[0])
+                    if isinstance(c, ast.For) and isinstance(c.target, ast.Name):
+                        it_ = unparse(c.iter)
+                        src_ = it_[5:] if it_.startswith('node.') else alias.get(it_)
+                        if src_ and any(isinstance(x, ast.Call) and unparse(x.func) == 'self.visit' and x.args and
+                                        unparse(x.args[0]).split('.')[0] == c.target.id for x in ast.walk(c)):
+                            descends.add(src_.split('[')[0].split('.')[0])
+                need = [f.name for f in G.fields(kind) if f.sort == 'expr']
             if kind in ('Import', 'ImportFrom'):
                 need = ['names']
             if kind == 'Name':
